@@ -114,7 +114,9 @@ class C09(Check):
                 return {'delay': (n + r.uniform(-0.45, 0.45)) * dt, 'dsteps': n}
             return {}
         spec = models.gen_net(rng, n_nodes=rng.randint(2, 5), libs=('lin', 'leak', 'integ', 'osc', 'linl'), max_edges=6,
-                              delays=delays, hier=rng.random() < 0.2)
+                              delays=delays, hier=rng.random() < 0.2,
+                              # multi-operator nodes: the delayed source variable is also read by a second operator of its node
+                              readouts=(0.5, 0.0) if rng.random() < 0.3 else None)
         if stratum == 'S-hub':
             spec = self.gen_hub(rng, dt)
             cfg['vectorize'] = rng.random() < 0.8
@@ -419,6 +421,16 @@ class C09(Check):
                 rn = {n: float(np.asarray(r).reshape(-1)[p]) for n, p in pos.items()}
                 got = net.recover_inputs(yn, rn)
                 for (node, opn), g in got.items():
+                    if net.inst[(node, opn)]['lib'] == 'rd':
+                        # second operator of a multi-operator node: it reads the CURRENT value of its sibling's variable,
+                        # whether or not that variable also feeds delayed edges
+                        want = yn[net.inst[(node, opn)]['reads']]
+                        if abs(g - want) > 1e-9 * max(1.0, abs(want), abs(g)):
+                            V('L-delay', 'silent', 'intra-node',
+                              f'evaluation {e} (step {k}): {node}/{opn} reads {net.inst[(node, opn)]["reads"]} and received {g!r}, '
+                              f'the current value is {want!r}; vectorize={cfg["vectorize"]}')
+                            return res
+                        continue
                     invar = f"{node}/{opn}/{models.LIB[net.inst[(node, opn)]['lib']]['in']}"
                     want = 0.0
                     for s, tt, w, nd in edges:
